@@ -22,11 +22,14 @@ Proof.
   nra.
 Qed.
 
+Lemma opt1_of_sub1 phi sigma x p : 0 < sigma -> sub1 phi sigma x p -> opt1 phi sigma x p.
+Proof. intros Hs (vp & Hv & H). eapply opt1_of_subgrad; eauto. Qed.
+
 (* soft threshold *)
 Definition soft1 (lam g s x : R) : R := x - (x - g) / Rmax (Rabs (x - g) / (s * lam)) 1.
 
 Lemma soft1_opt lam g s x : 0 < lam -> 0 < s ->
-  opt1 (fun t => Some (lam * Rabs (t - g))) s x (soft1 lam g s x).
+  sub1 (fun t => Some (lam * Rabs (t - g))) s x (soft1 lam g s x).
 Proof.
   intros Hl Hs. set (d := x - g).
   assert (Hsl : 0 < s * lam) by nra.
@@ -36,7 +39,7 @@ Proof.
     { unfold soft1. fold d. rewrite Rmax_right.
       - unfold d; field.
       - apply (Rmult_le_reg_r (s * lam)); [assumption|]. unfold Rdiv. rewrite Rmult_assoc, Rinv_l by lra. lra. }
-    rewrite Hp. apply opt1_of_subgrad with (vp := 0); [assumption| |].
+    rewrite Hp. exists 0. split.
     + f_equal. rewrite Rminus_diag_eq by reflexivity. rewrite Rabs_R0. ring.
     + intros t. cbn [ele].
       replace ((x - g) / s * (t - g)) with (d * (t - g) * / s) by (unfold d; field; lra).
@@ -56,7 +59,7 @@ Proof.
     rewrite Hp.
     assert (Hsg : (d / Rabs d = 1 /\ 0 < d /\ Rabs d = d) \/ (d / Rabs d = -1 /\ d < 0 /\ Rabs d = - d)).
     { unfold Rabs in *. destruct (Rcase_abs d); [right|left]; repeat split; try lra; field; lra. }
-    apply opt1_of_subgrad with (vp := lam * (Rabs d - s * lam)); [assumption| |].
+    exists (lam * (Rabs d - s * lam)). split.
     + f_equal. f_equal. destruct Hsg as [(E & H & A)|(E & H & A)]; rewrite E; rewrite A in *.
       * rewrite Rabs_right; unfold d in *; lra.
       * rewrite Rabs_left; unfold d in *; lra.
@@ -69,72 +72,72 @@ Qed.
 
 Lemma opt1_ext phi psi s x p : (forall t, psi t = phi t) -> opt1 phi s x p -> opt1 psi s x p.
 Proof. intros E [F O]. split; [rewrite E; exact F|]. intros t. rewrite !E. apply O. Qed.
+Notation sub1_ext' := sub1_ext.
 
 Lemma opt1_quadratic a b c s x p : 0 < s -> 0 <= a -> x - p = s * (2 * a * p + b) ->
-  opt1 (fun t => Some (a * t * t + b * t + c)) s x p.
+  sub1 (fun t => Some (a * t * t + b * t + c)) s x p.
 Proof.
-  intros Hs Ha Hp. apply opt1_of_subgrad with (vp := a * p * p + b * p + c); [assumption|reflexivity|].
+  intros Hs Ha Hp. exists (a * p * p + b * p + c). split; [reflexivity|].
   intros t. cbn [ele]. rewrite Hp. replace (s * (2 * a * p + b) / s) with (2 * a * p + b) by (field; lra).
   pose proof (Rmult_le_pos _ _ Ha (Rle_0_sqr (t - p))) as Hsq. unfold Rsqr in Hsq. nra.
 Qed.
 
 (* L2 squared: lam (t - g)^2 *)
 Lemma l2sq_opt lam g s x : 0 < lam -> 0 < s ->
-  opt1 (fun t => Some (lam * ((t - g) * (t - g)))) s x ((x + s * (2 * lam * g)) / (1 + 2 * s * lam)).
+  sub1 (fun t => Some (lam * ((t - g) * (t - g)))) s x ((x + s * (2 * lam * g)) / (1 + 2 * s * lam)).
 Proof.
   intros Hl Hs. assert (0 < s * lam) by nra.
-  apply (opt1_ext (fun t => Some (lam * t * t + (- 2 * lam * g) * t + lam * g * g))).
+  apply (sub1_ext (fun t => Some (lam * t * t + (- 2 * lam * g) * t + lam * g * g))).
   { intros t. f_equal. ring. }
   apply opt1_quadratic; try lra. field. lra.
 Qed.
 Lemma l2sq0_opt lam s x : 0 < lam -> 0 < s ->
-  opt1 (fun t => Some (lam * (t * t))) s x (x / (1 + 2 * s * lam)).
+  sub1 (fun t => Some (lam * (t * t))) s x (x / (1 + 2 * s * lam)).
 Proof.
   intros Hl Hs. assert (0 < s * lam) by nra.
-  apply (opt1_ext (fun t => Some (lam * t * t + 0 * t + 0))).
+  apply (sub1_ext (fun t => Some (lam * t * t + 0 * t + 0))).
   { intros t. f_equal. ring. }
   apply opt1_quadratic; try lra. field. lra.
 Qed.
 
 (* conjugate of lam ||. - g||^2 :  t^2/(4 lam) + t g *)
 Lemma ccl2sq_opt lam g s x : 0 < lam -> 0 < s ->
-  opt1 (fun t => Some (t * t / (4 * lam) + t * g)) s x ((x - s * g) / (1 + / 2 / lam * s)).
+  sub1 (fun t => Some (t * t / (4 * lam) + t * g)) s x ((x - s * g) / (1 + / 2 / lam * s)).
 Proof.
   intros Hl Hs.
   assert (Hil : 0 < / lam) by (apply Rinv_0_lt_compat; assumption).
   assert (0 < / lam * s) by nra.
-  apply (opt1_ext (fun t => Some (/ (4 * lam) * t * t + g * t + 0))).
+  apply (sub1_ext (fun t => Some (/ (4 * lam) * t * t + g * t + 0))).
   { intros t. f_equal. field. lra. }
   apply opt1_quadratic; try lra.
   - rewrite Rinv_mult by lra. lra.
   - field. split; [lra|]. intro E. assert (2 * lam + s = 0) by lra. lra.
 Qed.
 Lemma ccl2sq0_opt lam s x : 0 < lam -> 0 < s ->
-  opt1 (fun t => Some (t * t / (4 * lam))) s x (x / (1 + / 2 / lam * s)).
+  sub1 (fun t => Some (t * t / (4 * lam))) s x (x / (1 + / 2 / lam * s)).
 Proof.
   intros Hl Hs.
   assert (Hil : 0 < / lam) by (apply Rinv_0_lt_compat; assumption).
   assert (0 < / lam * s) by nra.
-  apply (opt1_ext (fun t => Some (/ (4 * lam) * t * t + 0 * t + 0))).
+  apply (sub1_ext (fun t => Some (/ (4 * lam) * t * t + 0 * t + 0))).
   { intros t. f_equal. field. lra. }
   apply opt1_quadratic; try lra.
   - rewrite Rinv_mult by lra. lra.
   - field. split; [lra|]. intro E. assert (2 * lam + s = 0) by lra. lra.
 Qed.
 
-(* projections: phi = indicator (+ finite part), decided by a boolean *)
-Lemma opt1_proj (S : R -> bool) (lin : R -> R) s x p : 0 < s ->
+(* projections: phi = indicator (+ finite part), decided by a boolean; variational inequality *)
+Lemma sub1_proj (S : R -> bool) (lin : R -> R) s x p : 0 < s ->
   S p = true ->
-  (forall t, S t = true -> lin p + (p - x) * (p - x) / (2 * s) <= lin t + (t - x) * (t - x) / (2 * s)) ->
-  opt1 (fun t => if S t then Some (lin t) else None) s x p.
+  (forall t, S t = true -> lin p + (x - p) / s * (t - p) <= lin t) ->
+  sub1 (fun t => if S t then Some (lin t) else None) s x p.
 Proof.
-  intros Hs Hp Hn. split; [rewrite Hp; eexists; reflexivity|].
-  intros t. rewrite Hp. destruct (S t) eqn:E; cbn [eadd ele]; [|exact I]. numR. apply Hn; assumption.
+  intros Hs Hp Hn. exists (lin p). split; [rewrite Hp; reflexivity|].
+  intros t. destruct (S t) eqn:E; cbn [ele]; [|exact I]. apply Hn; assumption.
 Qed.
 
-Lemma sq_le_div s a b : 0 < s -> a * a <= b * b -> a * a / (2 * s) <= b * b / (2 * s).
-Proof. intros Hs H. unfold Rdiv. apply Rmult_le_compat_r; [|assumption].
-  apply Rlt_le, Rinv_0_lt_compat; lra. Qed.
+Lemma vi_div s a : 0 < s -> a <= 0 -> a / s <= 0.
+Proof. intros Hs Ha. unfold Rdiv. assert (0 < / s) by (apply Rinv_0_lt_compat; assumption). nra. Qed.
 
 Ltac case_ifs := repeat match goal with
   | |- context [Rle_dec ?a ?b] =>
@@ -154,29 +157,29 @@ Definition clamp1 (lo hi : option R) (t : R) : R :=
   match hi with Some h => Rmin y h | None => y end.
 
 Lemma clamp1_opt lo hi s x : 0 < s ->
-  opt1 (fun t => if Reqb (clamp1 lo hi t) t then Some 0 else None) s x (clamp1 lo hi x).
+  sub1 (fun t => if Reqb (clamp1 lo hi t) t then Some 0 else None) s x (clamp1 lo hi x).
 Proof.
-  intros Hs. apply (opt1_proj (fun t => Reqb (clamp1 lo hi t) t) (fun _ => 0)); [assumption| |].
+  intros Hs. apply (sub1_proj (fun t => Reqb (clamp1 lo hi t) t) (fun _ => 0)); [assumption| |].
   - destruct (Reqb_spec (clamp1 lo hi (clamp1 lo hi x)) (clamp1 lo hi x)) as [|N]; [reflexivity|].
     exfalso; apply N. unfold clamp1. destruct lo as [l|], hi as [h|]; unfold Rmax, Rmin; case_ifs; lra.
   - intros t Ht. destruct (Reqb_spec (clamp1 lo hi t) t) as [E|]; [|discriminate].
-    assert ((clamp1 lo hi x - x) * (clamp1 lo hi x - x) <= (t - x) * (t - x)).
-    { unfold clamp1 in *. destruct lo as [l|], hi as [h|]; unfold Rmax, Rmin in *; case_ifs; apply sq_mono; lra. }
-    pose proof (sq_le_div s _ _ Hs H). lra.
+    assert ((x - clamp1 lo hi x) * (t - clamp1 lo hi x) <= 0).
+    { unfold clamp1 in *. destruct lo as [l|], hi as [h|]; unfold Rmax, Rmin in *; case_ifs; nra. }
+    pose proof (vi_div s _ Hs H) as Q. unfold Rdiv in *. lra.
 Qed.
 
 (* {0} *)
-Lemma zero_opt s x : 0 < s -> opt1 (fun t => if Reqb t 0 then Some 0 else None) s x 0.
+Lemma zero_opt s x : 0 < s -> sub1 (fun t => if Reqb t 0 then Some 0 else None) s x 0.
 Proof.
-  intros Hs. apply (opt1_proj (fun t => Reqb t 0) (fun _ => 0)); [assumption| |].
+  intros Hs. apply (sub1_proj (fun t => Reqb t 0) (fun _ => 0)); [assumption| |].
   - destruct (Reqb_spec 0 0); [reflexivity|lra].
   - intros t Ht. destruct (Reqb_spec t 0); [subst; lra|discriminate].
 Qed.
 
 (* constant *)
-Lemma const_opt s x : 0 < s -> opt1 (fun t => Some 0) s x x.
+Lemma const_opt s x : 0 < s -> sub1 (fun t => Some 0) s x x.
 Proof.
-  intros Hs. apply opt1_of_subgrad with (vp := 0); [assumption|reflexivity|].
+  intros Hs. exists 0. split; [reflexivity|].
   intros t. cbn [ele]. replace (x - x) with 0 by ring. unfold Rdiv; lra.
 Qed.
 
@@ -190,32 +193,27 @@ Proof.
   - apply Rnot_le_lt in H. right. unfold Rabs in *. destruct (Rcase_abs d); [right|left]; split; try lra; field; lra.
 Qed.
 Lemma ccl1_opt lam g s x : 0 < lam -> 0 < s ->
-  opt1 (fun t => if Rleb (Rabs t) lam then Some (t * g) else None) s x (ccl1_1 lam (x - s * g)).
+  sub1 (fun t => if Rleb (Rabs t) lam then Some (t * g) else None) s x (ccl1_1 lam (x - s * g)).
 Proof.
   intros Hl Hs. set (d := x - s * g). set (p := ccl1_1 lam d).
-  assert (Hp : Rabs p <= lam /\ forall t, Rabs t <= lam -> (p - d) * (p - d) <= (t - d) * (t - d)).
+  assert (Hp : Rabs p <= lam /\ forall t, Rabs t <= lam -> (d - p) * (t - p) <= 0).
   { assert (Habs : forall t, Rabs t <= lam -> - lam <= t <= lam).
     { intros t Ht. unfold Rabs in Ht. destruct (Rcase_abs t); lra. }
     destruct (ccl1_1_cases lam d Hl) as [[H E]|[[H E]|[H E]]]; unfold p; rewrite E; split.
     - assumption.
-    - intros t Ht. replace (d - d) with 0 by ring. pose proof (Rle_0_sqr (t - d)) as Q; unfold Rsqr in Q; lra.
+    - intros t Ht. replace (d - d) with 0 by ring. lra.
     - rewrite Rabs_right; lra.
-    - intros t Ht. apply Habs in Ht. apply sq_mono. lra.
+    - intros t Ht. apply Habs in Ht. nra.
     - rewrite Rabs_left; lra.
-    - intros t Ht. apply Habs in Ht. apply sq_mono. lra. }
+    - intros t Ht. apply Habs in Ht. nra. }
   destruct Hp as [Hp1 Hp2].
-  apply (opt1_proj (fun t => Rleb (Rabs t) lam) (fun t => t * g)); [assumption| |].
+  apply (sub1_proj (fun t => Rleb (Rabs t) lam) (fun t => t * g)); [assumption| |].
   - destruct (Rleb_spec (Rabs p) lam); [reflexivity|contradiction].
   - intros t Ht. destruct (Rleb_spec (Rabs t) lam) as [Ht'|]; [|discriminate].
     specialize (Hp2 t Ht').
-    assert (Hr : 0 < / s) by (apply Rinv_0_lt_compat; assumption).
-    replace ((p - x) * (p - x) / (2 * s)) with ((p - x) * (p - x) * / s / 2) by (field; lra).
-    replace ((t - x) * (t - x) / (2 * s)) with ((t - x) * (t - x) * / s / 2) by (field; lra).
-    (* multiply by 2 s *)
-    apply (Rmult_le_reg_r (2 * s)); [lra|].
-    replace ((p * g + (p - x) * (p - x) * / s / 2) * (2 * s)) with (2 * s * p * g + (p - x) * (p - x)) by (field; lra).
-    replace ((t * g + (t - x) * (t - x) * / s / 2) * (2 * s)) with (2 * s * t * g + (t - x) * (t - x)) by (field; lra).
-    unfold d in Hp2. nra.
+    pose proof (vi_div s _ Hs Hp2) as Q.
+    replace ((x - p) / s * (t - p)) with ((d - p) * (t - p) / s + g * (t - p)) by (unfold d; field; lra).
+    lra.
 Qed.
 
 Definition hub (gamma t : R) : R := @huber1 R _ gamma t.
@@ -284,7 +282,7 @@ Definition huber_p (gamma s x : R) : R :=
   if Rleb (Rabs x) (gamma + s) then gamma / (gamma + s) * x else x - s * @nsign R _ x.
 
 Lemma huber_opt gamma s x : 0 <= gamma -> 0 < s ->
-  opt1 (fun t => Some (hub gamma t)) s x (huber_p gamma s x).
+  sub1 (fun t => Some (hub gamma t)) s x (huber_p gamma s x).
 Proof.
   intros Hg Hs. unfold huber_p.
   destruct (Rleb_spec (Rabs x) (gamma + s)) as [H|H].
@@ -298,7 +296,7 @@ Proof.
         unfold Rdiv. rewrite Rmult_assoc, Rinv_l by lra. lra. }
     assert (Hp : gamma / (gamma + s) * x = gamma * u) by (unfold u; field; lra).
     rewrite Hp.
-    apply opt1_of_subgrad with (vp := u * (gamma * u) - gamma * u * u / 2); [assumption| |].
+    exists (u * (gamma * u) - gamma * u * u / 2). split.
     + f_equal. apply hub_eq_small; assumption.
     + intros t. cbn [ele].
       replace ((x - gamma * u) / s) with u by (unfold u; field; lra).
@@ -315,7 +313,7 @@ Proof.
       - rewrite (Rabs_right x) in H by lra. rewrite Rabs_right by lra. split; [lra|]. left; split; lra.
       - rewrite (Rabs_left x) in H by lra. rewrite Rabs_left by lra. split; [lra|]. right; split; lra. }
     destruct Hlarge as [HL HS].
-    apply opt1_of_subgrad with (vp := u * (x - s * u) - gamma * u * u / 2); [assumption| |].
+    exists (u * (x - s * u) - gamma * u * u / 2). split.
     + f_equal. apply hub_eq_large; assumption.
     + intros t. cbn [ele].
       replace ((x - (x - s * u)) / s) with u by (field; lra).
